@@ -537,6 +537,36 @@ def pyslice(s, sl):
     return s[slice(sl[0], sl[1])]
 
 
+# ---------------------------------------------------------------- file-level stream (FastqIterator) helpers
+WS = set(range(9, 14)) | set(range(28, 33)) | {133, 160}
+
+
+def fq_lines(text):
+    """what successive readline() calls return in text mode with universal newlines"""
+    t = text.replace('\r\n', '\n').replace('\r', '\n')
+    parts = t.split('\n')
+    return [x + '\n' for x in parts[:-1]] + ([parts[-1]] if parts[-1] else [])
+
+
+def fq_rstrip(x):
+    while x and ord(x[-1]) in WS:
+        x = x[:-1]
+    return x
+
+
+def fq_expected(texts):
+    """the statement: tuple k = lines 4k..4k+3 of every file, right-stripped; stop at the first blank/absent header"""
+    files = [fq_lines(t) for t in texts]
+    out, k = [], 0
+    while files:
+        row = [[fq_rstrip(f[4 * k + j]) if 4 * k + j < len(f) else '' for j in range(4)] for f in files]
+        if any(not r[0] for r in row):
+            break
+        out.append(row)
+        k += 1
+    return out
+
+
 class Prop(fw.PropBase):
     ID = 'C02'
     PROPS = 'Props/C02.v'
@@ -980,6 +1010,79 @@ class Prop(fw.PropBase):
                 out.append((a.get('alias'), raw))
         return sorted(set(out), key=str)
 
+    # ------------------------------------------------------------------ file-level stream: FastqIterator alone
+    def make_fq_cases(self):
+        import random
+        rng = random.Random('c02fq-%s-%s' % (os.environ.get('VERIF_SEED', '0'), self.tier))
+        n = 60 if self.tier == 'quick' else 400
+        cases = []
+
+        def rec(i, L):
+            q = ''.join(rng.choice('!#5AFIJ~') for _ in range(L))
+            return ['@r%d %d:N:0' % (i, rng.randint(1, 2)), ''.join(rng.choice('ACGTN') for _ in range(L)), '+', q]
+        for c in range(n):
+            nf = rng.choice([1, 2, 2, 2, 3])
+            eol = rng.choice(['\n', '\n', '\r\n'])
+            nrec = rng.choice([0, 1, 2, 3, 5])
+            shape = rng.choice(['plain', 'plain', 'no_final_newline', 'blank_tail', 'truncated', 'blank_inside', 'shorter_mate',
+                                'trailing_space', 'no_final_newline'])
+            texts = []
+            for j in range(nf):
+                k = nrec - 1 if (shape == 'shorter_mate' and j == nf - 1 and nrec > 0) else nrec
+                lines = [x for i in range(k) for x in rec(i, rng.choice([0, 1, 4, 12]))]
+                if shape == 'trailing_space':
+                    lines = [x + rng.choice(['', ' ', '\t', ' \t']) for x in lines]
+                if shape == 'truncated' and lines and (j == 0 or rng.random() < 0.5):
+                    lines = lines[:len(lines) - rng.randint(1, 3)]
+                if shape == 'blank_inside' and len(lines) >= 4:
+                    lines.insert(4 * rng.randrange(len(lines) // 4), rng.choice(['', ' ']))
+                t = ''.join(x + eol for x in lines)
+                if shape == 'blank_tail':
+                    t += eol * rng.randint(1, 5)
+                if shape == 'no_final_newline' and t:
+                    t = t[:-len(eol)]
+                texts.append(t)
+            cases.append({'texts': texts, 'gz': rng.random() < 0.25, 'shape': shape, 'eol': 'CRLF' if eol != '\n' else 'LF'})
+        return cases
+
+    def fq_stream(self, with_model):
+        """FastqIterator on generated files: the statement on the implementation's records, and model = implementation"""
+        cases = self.make_fq_cases()
+        res = fw.run_impl('impl_c02.py', {'op': 'fq', 'cases': [{'texts': c['texts'], 'gz': c['gz']} for c in cases]})['fq']
+        bad, shapes, nrec = [], {}, 0
+        for c, r in zip(cases, res):
+            exp = fq_expected(c['texts'])
+            got = r.get('recs') if isinstance(r, dict) else None
+            shapes[c['shape']] = shapes.get(c['shape'], 0) + 1
+            nrec += len(exp)
+            if got is None or fw.to_val(got) != fw.to_val(exp):
+                bad.append({'key': 'C02:fastq-iterator:%s' % c['shape'],
+                            'what': 'FastqIterator over %d file(s) (%s line ends, %s): records differ from lines 4k..4k+3 of each file '
+                                    '(right-stripped, stopping at the first blank or absent header)' % (len(c['texts']), c['eol'], c['shape']),
+                            'input': {'file_contents': c['texts'], 'gz': c['gz']}, 'impl': r, 'expected': exp,
+                            'size': sum(len(t) for t in c['texts'])})
+        self.cov['fastq_iterator'] = {'cases': len(cases), 'shapes': shapes, 'records_expected': nrec,
+                                      'crlf': sum(1 for c in cases if c['eol'] == 'CRLF'), 'gz': sum(1 for c in cases if c['gz']),
+                                      'multi_file': sum(1 for c in cases if len(c['texts']) > 1), 'statement_violations': len(bad)}
+        if with_model and not bad:
+            minp = [[fq_lines(t) for t in c['texts']] for c in cases]
+            mout = fw.run_model('C02', 7, minp)
+            pairs = []
+            for c, r, mi, mo in zip(cases, res, minp, mout):
+                pairs.append((fw.to_val(mi), mo))
+                if mo != fw.to_val(r['recs']):
+                    bad.append({'key': 'C02:fastq-iterator-model:%s' % c['shape'], 'what': 'FastqIterator differs from the Coq model fq_records',
+                                'input': {'file_contents': c['texts'], 'gz': c['gz']}, 'impl': r, 'expected': mo,
+                                'size': sum(len(t) for t in c['texts'])})
+            small = [pr for pr in pairs if sum(len(l) for f in pr[0] for l in f) < 200][:40]
+            ok, nm, log = fw.vm_crosscheck('C02', 7, small)
+            self.cov['fastq_iterator']['model_compared'] = len(pairs)
+            self.cov['fastq_iterator']['vm_compute_crosscheck'] = {'cases': len(small), 'mismatches': nm}
+            if not ok:
+                raise fw.Broken('extraction', 'vm_compute and extracted fastq-iterator model disagree: ' + log[-800:])
+        self.fq_bad = sorted(bad, key=lambda w: w['size'])
+        return self.fq_bad
+
     def correspondence(self):
         self.ensure_layouts()
         cases = self.make_cases()
@@ -1099,6 +1202,8 @@ class Prop(fw.PropBase):
                 dis.append({'strategy': cases[i]['s'], 'input': cases[i]['recs'], 'impl': rp, 'statement': 'probe=True changes the accepted records'})
         if self.model_ok:
             dis += self.model_vs_impl(cases, impl, inits, res['init'])
+        for w in self.fq_stream(self.model_ok):
+            dis.append({'strategy': 'FastqIterator', 'input': w['input'], 'impl': w['impl'], 'statement': w['what']})
         self.cov['disagreements'] = len(dis)
         if dis:
             self.dis = dis
@@ -1301,6 +1406,16 @@ class Prop(fw.PropBase):
                     how, 'gz' if fc['gz'] else 'plain', 'CRLF' if fc['eol'] != '\n' else 'LF', 'with' if fc['trailing'] else 'WITHOUT', w),
                     'input': {k: v for k, v in fc.items() if k != 'sid'}, 'impl': fr})
         self.witnesses += [w for _, w in sorted(fbest.values(), key=lambda x: x[0])][:3]
+        try:
+            fqb = self.fq_bad if hasattr(self, 'fq_bad') else self.fq_stream(False)
+        except BaseException as e:
+            fqb = []
+            self.notes.append('search: fastq iterator stream failed: %s' % e)
+        seenk = set()
+        for w in fqb:
+            if w['key'] not in seenk and len(seenk) < 2:
+                seenk.add(w['key'])
+                self.witnesses.append({k: v for k, v in w.items() if k != 'size'})
         # table level: positions observed by tracing differ from the pinned table
         for d in self.layouts:
             P = self.protocols.get(d['name'])
